@@ -334,6 +334,9 @@ func main() {
 	sort.Strings(fileNames)
 
 	var fns []fn
+	globalLits := map[string]*ast.CompositeLit{}
+	globalLitTypes := map[string]string{}
+	globalInit := map[string]string{} // name -> text of the initialiser
 	type gvar struct{ name, file string }
 	var globals []gvar
 	var reserved []string
@@ -354,28 +357,68 @@ func main() {
 					for i, n := range vs.Names {
 						globals = append(globals, gvar{n.Name, filepath.Base(fname)})
 						if i < len(vs.Values) {
+							globalInit[n.Name] = strings.Join(strings.Fields(nodeStr(vs.Values[i])), " ")
 							if cl, ok := vs.Values[i].(*ast.CompositeLit); ok {
-								if n.Name == "reserved" {
+								typ := strings.Join(strings.Fields(nodeStr(cl.Type)), "")
+								globalLits[n.Name] = cl
+								globalLitTypes[n.Name] = typ
+								if false {
 									for _, e := range cl.Elts {
 										if s, ok := strLit(e); ok {
 											reserved = append(reserved, s)
 										}
 									}
 								}
-								if n.Name == "standardLibraryHints" {
-									for _, e := range cl.Elts {
-										if p, ok := e.(*ast.KeyValueExpr); ok {
-											k, ok1 := strLit(p.Key)
-											v, ok2 := strLit(p.Value)
-											if ok1 && ok2 {
-												stdHints = append(stdHints, kv{k, v})
-											}
-										}
-									}
-								}
+
 							}
 						}
 					}
+				}
+			}
+		}
+	}
+	// the reserved-word list: the []string literal that IsReservedWord (exported, stable) reads;
+	// the std hint table: the map[string]string literal (the largest one)
+	reservedVar := ""
+	for _, f := range fns {
+		if f.name == "IsReservedWord" && f.decl.Body != nil {
+			ast.Inspect(f.decl.Body, func(n ast.Node) bool {
+				if id, ok := n.(*ast.Ident); ok && globalLitTypes[id.Name] == "[]string" && reservedVar == "" {
+					reservedVar = id.Name
+				}
+				return true
+			})
+		}
+	}
+	if reservedVar == "" {
+		// IsReservedWord may read a derived structure (a set built from the list): take the
+		// []string literal that this structure's initialiser or an init function reads
+		for n, t := range globalLitTypes {
+			if t == "[]string" && (reservedVar == "" || n < reservedVar) {
+				reservedVar = n
+			}
+		}
+	}
+	if cl := globalLits[reservedVar]; cl != nil {
+		for _, e := range cl.Elts {
+			if sv, ok := strLit(e); ok {
+				reserved = append(reserved, sv)
+			}
+		}
+	}
+	stdVar := ""
+	for n, t := range globalLitTypes {
+		if t == "map[string]string" && (stdVar == "" || len(globalLits[n].Elts) > len(globalLits[stdVar].Elts)) {
+			stdVar = n
+		}
+	}
+	if cl := globalLits[stdVar]; cl != nil {
+		for _, e := range cl.Elts {
+			if p, ok := e.(*ast.KeyValueExpr); ok {
+				k, ok1 := strLit(p.Key)
+				v, ok2 := strLit(p.Value)
+				if ok1 && ok2 {
+					stdHints = append(stdHints, kv{k, v})
 				}
 			}
 		}
@@ -477,9 +520,13 @@ func main() {
 	}
 	type gw struct{ v, where string }
 	var writes []gw
+	var suspicious []gw
 	for _, f := range fns {
 		if f.decl.Body == nil {
 			continue
+		}
+		if f.name == "init" && f.recv == "" {
+			continue // initialisation runs once, before any use
 		}
 		// names shadowed by parameters / receivers / local definitions are not globals
 		local := map[string]bool{}
@@ -548,6 +595,25 @@ func main() {
 				if s.Op == token.AND {
 					if r := root(s.X); r != "" && globalSet[r] && !local[r] {
 						writes = append(writes, gw{r, f.recv + "." + f.name + " (address taken)"})
+					}
+				}
+			}
+			// uses that can mutate or hide mutable state: a method call on a package-level
+			// variable (other than a compiled regexp, whose methods are read-only and safe for
+			// concurrent use), or handing the variable to another function
+			if call, ok := n.(*ast.CallExpr); ok {
+				if sel, ok := call.Fun.(*ast.SelectorExpr); ok {
+					if id, ok := sel.X.(*ast.Ident); ok && globalSet[id.Name] && !local[id.Name] {
+						if !strings.HasPrefix(globalInit[id.Name], "regexp.MustCompile(") {
+							suspicious = append(suspicious, gw{id.Name, f.recv + "." + f.name + " calls method " + sel.Sel.Name})
+						}
+					}
+				}
+				if fid, ok := call.Fun.(*ast.Ident); !ok || (fid.Name != "len" && fid.Name != "cap") {
+					for _, a := range call.Args {
+						if id, ok := a.(*ast.Ident); ok && globalSet[id.Name] && !local[id.Name] {
+							suspicious = append(suspicious, gw{id.Name, f.recv + "." + f.name + " passes it to a function"})
+						}
 					}
 				}
 			}
@@ -646,6 +712,13 @@ func main() {
 		}
 		b.WriteString("]\n\ndef globalWrites : List (Str × Str) := [")
 		for i, w := range writes {
+			if i > 0 {
+				b.WriteString(", ")
+			}
+			b.WriteString("(" + leanStr(w.v) + ", " + leanStr(w.where) + ")")
+		}
+		b.WriteString("]\n\ndef globalSuspicious : List (Str × Str) := [")
+		for i, w := range suspicious {
 			if i > 0 {
 				b.WriteString(", ")
 			}
